@@ -1431,7 +1431,7 @@ class xfunc_covariance(xfunc):
         if weights is not None:
             weights, weights_validity = as_separate_validity(weights)
             validity = (validity.T & weights_validity).T
-            weights = weights.copy()
+            weights = weights.astype(float)
             weights[~weights_validity] = NaN
 
         self.arr = arr.astype(float).copy()
